@@ -50,6 +50,9 @@ func kinds() []blk.Kind {
 		{Family: "queue", Ordering: "fifo", Evict: false, Backlog: 10, Timeout: h},
 		{Family: "queue", Ordering: "lifo", Evict: true, Backlog: 10, Timeout: h},
 		{Family: "queue", Ordering: "lifo", Evict: false, Backlog: 10, Timeout: h},
+		// no backlog time-out at all: a queued caller leaves only by being served (or, with eviction, cancelled)
+		{Family: "queue", Ordering: "fifo", Evict: false, Backlog: 10, Timeout: -1},
+		{Family: "queue", Ordering: "lifo", Evict: true, Backlog: 10, Timeout: -1},
 	}
 }
 
@@ -64,7 +67,7 @@ func points(k blk.Kind) []string {
 		p = append(p, "release-after-a-rejection-at-the-full-backlog", "second-release-inside-the-strategy", "refused-handoff-with-a-cancelled-head")
 		if k.Evict {
 			p = append(p, "handoff-vs-cancel", "cancel-right-after-the-handoff")
-		} else {
+		} else if k.Timeout > 0 {
 			p = append(p, "handoff-vs-timeout", "next-in-line-cancelled-but-not-evicted")
 		}
 	}
@@ -505,6 +508,29 @@ func stress(idx int64, r *rand.Rand) {
 	iters := 200
 	var progress, refused atomic.Int64
 	var wg sync.WaitGroup
+	stopReaders := make(chan struct{})
+	defer close(stopReaders)
+	if r.IntN(2) == 0 {
+		// metrics readers: goroutines that keep asking the delegate for its estimate and its description (what a gauge
+		// poller or a log line does) - reading never makes a release or a retry find the delegate "busy"
+		for i := 0; i < 2; i++ {
+			go func(i int) {
+				for {
+					select {
+					case <-stopReaders:
+						return
+					default:
+					}
+					if i == 0 {
+						_ = dl.EstimatedLimit()
+					} else {
+						_ = len(dl.String())
+					}
+				}
+			}(i)
+		}
+		rt.Count("stress_runs_with_readers_on_the_delegate", 1)
+	}
 	for g := 0; g < nG; g++ {
 		wg.Add(1)
 		go func(g int) {
